@@ -98,6 +98,26 @@ func runC18(p *Prog, r *Report) {
 	// is then dropped for some inputs is not "returned" to the user)
 	checkFlagFieldsReadOnly(p, r, "C18.R4", func(fr FlagReg) bool { return true })
 	checkParsingSequential(p, r, "C18.R4")
+	if checkEveryOptionParsed(p, r, "C18.R4", func(string) bool { return true }) < 20 {
+		r.Viol("C18.R4", "every-option-parsed/sites", "-", "the derivations of the parseRawOptions methods are found", "fewer than 20")
+	}
+	// R8: the exclusion file's lines go through ip.ParseIPNet: it accepts IPv4 hosts and IPv4 CIDR blocks only
+	// and returns exactly the denoted network (C02.R1 typestate re-evaluated; an IPv4-mapped IPv6 block
+	// accepted as a 128-bit network excludes nothing). And a port list given together with a ports file
+	// denotes the union of both (C01.R9 re-evaluated): parsing that drops one of them returns another value
+	r.Min("C18.R8", 2+2)
+	{
+		sub2 := NewReport("C18x", "quick")
+		checkIPv4Typestate(p, sub2)
+		checkPortSources(p, sub2)
+		for _, o := range sub2.Obs {
+			if o.Rule == "C02.R1" || o.Rule == "C01.R9" {
+				o2 := *o
+				o2.Rule = "C18.R8"
+				r.Obs = append(r.Obs, &o2)
+			}
+		}
+	}
 	sub := NewReport("C18", r.Tier)
 	checkCLIChain(p, sub)
 	for _, o := range sub.Obs {
